@@ -238,13 +238,16 @@ Section FW.
   Qed.
 
   (* ---------------------------------------------------------------- walks with bounded intermediate vertices *)
+  Lemma Qplus_nonneg_nonneg' a b : 0 <= a -> 0 <= b -> 0 <= a + b.
+  Proof. intros. lra. Qed.
+
   Inductive rwalk (k : nat) : nat -> nat -> Q -> Prop :=
   | rw_nil i : rwalk k i i 0
   | rw_edge i j w : In (j, w) (adj i) -> rwalk k i j w
   | rw_trans i m j l1 l2 : (m < k)%nat -> rwalk k i m l1 -> rwalk k m j l2 -> rwalk k i j (l1 + l2).
 
   Lemma rwalk_nonneg k i j l : rwalk k i j l -> 0 <= l.
-  Proof. induction 1; try lra. eapply Hnn; eauto. Qed.
+  Proof. induction 1; [apply Qle_refl | eapply Hnn; eauto | apply Qplus_nonneg_nonneg'; auto]. Qed.
 
   Lemma rwalk_split k i j l : rwalk (S k) i j l ->
     (exists l', rwalk k i j l' /\ l' <= l) \/
